@@ -350,6 +350,10 @@ def run_verus_job(ctx, name, spec):
     try:
         text, elog = spec["builder"](extract.REPO)
     except extract.LostAnchor as e:
+        if spec.get("soft_frontend"):
+            r["soft_note"] = "unit %s not decided on this tree (lost anchor: %s); its obligations are left to the bounded Kani harnesses of the same contract" % (name, e)
+            log("NOTE: " + r["soft_note"])
+            return r, []
         r["status"] = "undecided"
         r["undecided"].append("lost anchor: %s" % e)
         return r, []
@@ -398,9 +402,20 @@ def run_verus_job(ctx, name, spec):
         # classify: rustc/verus front-end errors (not verification failures) are undecided
         hard = [e for e in errs if not re.search(r"postcondition not satisfied|precondition not satisfied|invariant not satisfied|assertion failed|decreases not satisfied|possible arithmetic|possible division|recommendation|loop invariant|might not terminate|possible bit shift", e[0])]
         if "verification-results" not in js or (vr.get("encountered-vir-error") or (errors == 0 and not vr.get("success"))):
-            r["status"] = "undecided"
-            r["undecided"].append("verus front-end error: " + "; ".join(e[0] for e in errs[:5]))
+            msg = "verus front-end error: " + "; ".join(e[0] for e in errs[:5])
             r["raw_tail"] = out[:4000]
+            if spec.get("soft_frontend"):
+                # the code left the shape this unit translates (e.g. a private helper was extracted): the unit's
+                # unbounded obligations are NOT decided on this tree; the bounded Kani obligations of the same
+                # contract still run and decide. Reported as a note and under `assumptions`, never as discharged.
+                r["status"] = "pass"
+                r["soft_note"] = "unit %s not decided on this tree (%s); its obligations are left to the bounded Kani harnesses of the same contract" % (name, msg[:300])
+                for oid in sorted(set(re.findall(r"OBL:([\w.\-]+)", text))):
+                    r["obligations"][oid] = "UNDETERMINED"
+                log("NOTE: " + r["soft_note"])
+                return r, elog
+            r["status"] = "undecided"
+            r["undecided"].append(msg)
             return r, elog
         for msg, loc in errs:
             if re.search(r"possible arithmetic|possible division|possible bit shift", msg):
@@ -509,7 +524,8 @@ def main():
         # Kani's assert! assumes its condition afterwards: once an obligation fails, the obligations that
         # follow it in the same harness are only checked on the executions where it held. If an obligation of
         # ANOTHER property failed in this harness, this property's SUCCESSes there are not trustworthy.
-        foreign_fail = [f["obligation"] for f in r["failures"] if re.match(r"C\d\d\.", f["obligation"]) and not f["obligation"].startswith(prop + ".") and prop not in spec.get("shared", {}).get(f["obligation"], [])]
+        # (Verus reports every failing clause of a function separately: no masking there)
+        foreign_fail = [] if r.get("variant") == "verus" else [f["obligation"] for f in r["failures"] if re.match(r"C\d\d\.", f["obligation"]) and not f["obligation"].startswith(prop + ".") and prop not in spec.get("shared", {}).get(f["obligation"], [])]
         own_fail = [f for f in r["failures"] if f["obligation"] not in foreign_fail]
         if foreign_fail and not own_fail:
             undecided.append("%s: obligation(s) %s of another property failed in this shared harness; the obligations of %s that follow them are masked (Kani assumes an assertion after checking it) and count as not decided" % (h, ", ".join(sorted(set(foreign_fail))[:4]), prop))
@@ -540,7 +556,7 @@ def main():
                 violations.append((h, f, r))
         if r["status"] == "undecided" or (r["undecided"] and r["status"] != "violation"):
             undecided.append("%s: %s" % (h, "; ".join(r["undecided"])[:600]))
-    soft_notes = []
+    soft_notes = [r["soft_note"] for r in results.values() if r.get("soft_note")]
     for sn in static_notes:
         if sn["ok"] is None:
             undecided.append("scan %s: %s" % (sn["scan"], sn["note"]))
